@@ -1,2 +1,12 @@
 #!/bin/sh
-exit 0
+# Builds the framework from files on disk only (offline): Rocq development
+# (full .vo build), extracted model + OCaml driver, Go harness.
+set -e
+cd "$(dirname "$0")"
+export GOFLAGS=-mod=mod GOPROXY=off GOSUMDB=off GOTOOLCHAIN=local
+( cd coq && coq_makefile -f _CoqProject -o Makefile >/dev/null 2>&1 && timeout 3000 make -j16 >/dev/null )
+./driver/build.sh
+cp /repo/go.sum harness/go.sum
+mkdir -p harness/_bin
+( cd harness && go build -tags verif -o _bin/harness . )
+echo setup ok
